@@ -11,6 +11,14 @@
     check), Go's crypto/sha*, crypto/cipher and crypto/x509 for H, AEAD open and
     key parsing. *)
 From CSS Require Import Lib.Base Lib.Cases Model.Manifest.
+From Coq Require Strings.Byte.
+
+(** Compact byte-string literals: the shards write [zs [x5f; x4b; ...]] with the
+    constructors of [Coq.Init.Byte.byte] (a list of global references elaborates
+    several times faster than a list of [Z] numerals), and share a file, its
+    re-serialisation and their prefixes inside one case with [let] / [firstn]. *)
+Definition zs (l : list Coq.Init.Byte.byte) : bytes :=
+  map (fun b => Z.of_N (Coq.Strings.Byte.to_N b)) l.
 
 (** A parsed manifest as the tables describe it. *)
 Record pman := mk_pman {
@@ -98,7 +106,13 @@ Inductive case : Type :=
 | CDecrypt (data pw : bytes) (hpw : list (bytes * bytes))
            (ot : list (bytes * bytes * bytes * option bytes)) (pt : list (bytes * bool)) (r : obs unit)
 (* writePrivKeyToFile: password, PEM, produced file (its first 12 bytes are the nonce) *)
-| CEncrypt (pw pem out : bytes) (hpw : list (bytes * bytes)) (st : list (bytes * bytes * bytes * bytes)).
+| CEncrypt (pw pem out : bytes) (hpw : list (bytes * bytes)) (st : list (bytes * bytes * bytes * bytes))
+(* the life of one KM object: the BPM-key hash state it starts with (BGkm.BPKey /
+   CBNTkm.Hash), then a sequence of steps -- GetBPMPubHash calls and operations
+   that do not concern the hash (SignKM, WriteKM + NewKM, VerifyKM, SVN/ID
+   change) -- each with what the call returned and the state observed on the
+   object afterwards *)
+| CKmLife (st0 : kmstate) (steps : list (kmstep * obs unit * kmstate)) (ht : list (Z * bytes * bytes)).
 
 Definition unit_eqb (_ _ : unit) : bool := true.
 
@@ -112,6 +126,26 @@ Definition opt_Z_eqb (a b : option Z) : bool :=
 (** the message the model hands to [verify_raw] must be one the harness tabulated *)
 Definition covered (E : env) (msg : bytes) (vt : list (bytes * bool)) : bool :=
   match lookup_bytes msg vt with Some _ => true | None => false end.
+
+Definition kmhash_eqb (a b : kmhash) : bool :=
+  (kh_usage a =? kh_usage b) && (kh_alg a =? kh_alg b) && zlist_eqb (kh_buf a) (kh_buf b).
+
+Definition kmstate_eqb (a b : kmstate) : bool :=
+  match a, b with
+  | KmBG a1 b1, KmBG a2 b2 => (a1 =? a2) && zlist_eqb b1 b2
+  | KmCBNT h1, KmCBNT h2 => list_eqb kmhash_eqb h1 h2
+  | _, _ => false
+  end.
+
+(** run the model along the observed history; every step must agree in outcome
+    and in the state it leaves (the model continues from ITS state) *)
+Fixpoint life_ok (H : Z -> bytes -> bytes) (st : kmstate) (steps : list (kmstep * obs unit * kmstate)) : bool :=
+  match steps with
+  | [] => true
+  | (s, r, st_obs) :: t =>
+      let st' := km_step H st s in
+      obs_match unit_eqb r (km_step_outcome H st s) && kmstate_eqb st' st_obs && life_ok H st' t
+  end.
 
 Definition check (c : case) : bool :=
   match c with
@@ -152,6 +186,7 @@ Definition check (c : case) : bool :=
   | CEncrypt pw pem out hpw st =>
       let K := key_env hpw st [] [] in
       zlist_eqb (encrypt_priv K pw (firstn nonce_size out) pem) out
+  | CKmLife st0 steps ht => life_ok (table_H ht) st0 steps
   end.
 
 Definition mismatches := mismatches_by check.
